@@ -10,3 +10,161 @@ def run(ctx):
 
 def replay(ctx, body):
     F.replay_prop(ctx, body, "C18")
+
+
+# ------------------------------------------------------------------------------------------------
+# declarations the format supports and those it does not: an accepted write must keep the dataset readable
+
+
+def declaration_cells(task):
+    import shutil
+    import tempfile
+    import traceback
+    from pathlib import Path
+    import numpy as np
+    out = {"error": None, "cells": []}
+    tmp = Path(tempfile.mkdtemp(prefix="verif_c18d_"))
+    try:
+        from sedpack.io import Dataset, Metadata
+        from sedpack.io.metadata import Attribute, DatasetStructure
+        fmt = task["fmt"]
+        k = 0
+        for decl in task["declarations"]:
+            for vkind in task["value_kinds"]:
+                k += 1
+                root = tmp / f"d{k}"
+                shape = () if decl in ("bytes", "str") else (2,)
+                attrs = [Attribute(name="id", dtype="int64", shape=(1,)), Attribute(name="v", dtype=decl, shape=shape)]
+                if vkind == "missing-variable-attr":
+                    attrs.append(Attribute(name="blob", dtype="bytes", shape=()))
+                cell = {"fmt": fmt, "decl": decl, "value": vkind, "declared": True, "accepted": None, "readable": None,
+                        "ids": None, "detail": ""}
+                try:
+                    st = DatasetStructure(saved_data_description=attrs, compression="", examples_per_shard=2,
+                                          shard_file_type=fmt, hash_checksum_algorithms=("md5",))
+                    ds = Dataset.create(root, Metadata(description="decl"), st)
+                except Exception as exc:  # pylint: disable=broad-except
+                    cell["declared"] = False
+                    cell["detail"] = f"declaration refused: {type(exc).__name__}"
+                    out["cells"].append(cell)
+                    continue
+
+                def good(i):
+                    if decl == "bytes":
+                        v = b"payload%d" % i
+                    elif decl == "str":
+                        v = f"text{i}"
+                    else:
+                        v = np.array([i, i + 1]).astype(decl)
+                    d = {"id": np.array([i], np.int64), "v": v}
+                    if vkind == "missing-variable-attr":
+                        d["blob"] = b"blob"
+                    return d
+
+                def odd(i):
+                    d = good(i)
+                    if vkind == "fractional-for-int":
+                        d["v"] = np.array([1.5, 2.5])
+                    elif vkind == "text-for-number":
+                        d["v"] = np.array(["ab", "cd"])
+                    elif vkind == "wider-dtype":
+                        d["v"] = np.array([i, i + 1]).astype("float64" if np.dtype(decl).kind == "f" else "int64")
+                    elif vkind == "missing-variable-attr":
+                        del d["blob"]
+                    elif vkind == "number-for-bytes":
+                        d["v"] = np.array([1, 2])
+                    return d
+
+                accepted_ids, results = [], []
+                try:
+                    with ds.filler() as f:
+                        for i, maker in ((1, good), (2, odd), (3, good)):
+                            try:
+                                f.write_example(values=maker(i), split="train")
+                                accepted_ids.append(i)
+                                results.append("acc")
+                            except Exception as exc:  # pylint: disable=broad-except
+                                results.append("rej:" + type(exc).__name__)
+                except Exception as exc:  # pylint: disable=broad-except
+                    cell["detail"] = f"session failed: {type(exc).__name__}: {str(exc)[:120]}"
+                    cell["accepted"] = results
+                    cell["readable"] = False
+                    out["cells"].append(cell)
+                    continue
+                cell["accepted"] = results
+                try:
+                    got = [int(np.asarray(e["id"]).reshape(-1)[0])
+                           for e in Dataset(root).as_numpy_iterator(split="train", shuffle=0, repeat=False)]
+                    cell["readable"] = True
+                    cell["ids"] = got
+                    if got != accepted_ids:
+                        cell["detail"] = f"accepted writes {accepted_ids} but read back {got}"
+                except Exception as exc:  # pylint: disable=broad-except
+                    cell["readable"] = False
+                    cell["detail"] = f"reading raised {type(exc).__name__}: {str(exc)[:120]}"
+                out["cells"].append(cell)
+    except Exception:  # pylint: disable=broad-except
+        out["error"] = traceback.format_exc()
+    finally:
+        shutil.rmtree(tmp, ignore_errors=True)
+    return out
+
+
+DECLS = ["int8", "uint8", "int16", "int32", "int64", "uint64", "float16", "float32", "float64", "bytes", "str"]
+VKINDS = ["good", "fractional-for-int", "text-for-number", "wider-dtype", "missing-variable-attr", "number-for-bytes"]
+
+
+def declarations(ctx):
+    from .. import dshist as H
+    from ..core import MachineryError
+    tasks = [{"fmt": fmt, "declarations": DECLS, "value_kinds": VKINDS} for fmt in ("fb", "npz", "tfrec")]
+    try:
+        outs = H.run_histories(tasks, fn=declaration_cells)
+    finally:
+        H.shutdown_pool()
+    n = 0
+    for o in outs:
+        if o["error"]:
+            raise MachineryError(o["error"])
+        for c in o["cells"]:
+            if not c["declared"]:
+                continue
+            vk = c["value"]
+            dk = np_kind(c["decl"])
+            if vk in ("fractional-for-int", "wider-dtype") and dk not in ("i", "u", "f"):
+                continue
+            if vk == "fractional-for-int" and dk == "f":
+                continue
+            if vk == "text-for-number" and dk not in ("i", "u", "f"):
+                continue
+            if vk == "number-for-bytes" and c["decl"] not in ("bytes", "str"):
+                continue
+            if vk == "missing-variable-attr" and c["fmt"] == "fb":
+                continue  # fb cannot read any bytes attribute (known finding F6): the cell would only repeat it
+            if c["accepted"] and not any(a == "acc" for a in c["accepted"]) and "session failed" not in c["detail"]:
+                n += 1
+                continue  # nothing was accepted: nothing has to be readable
+            n += 1
+            if c["readable"] is False or (c["ids"] is not None and c["detail"]):
+                bad_write = "good values" if vk == "good" or c["accepted"][1].startswith("rej") else vk
+                dclass = {"i": "int", "u": "int", "f": "float", "S": "text"}[dk]
+                ctx.violation(f"C18|kind=accepted-unreadable|fmt={c['fmt']}|decl={c['decl']}|declclass={dclass}|value={bad_write}",
+                              f"{c['fmt']} attribute declared {c['decl']}, writes {c['accepted']} ({vk}): "
+                              f"{c['detail']}", {"cell": c})
+    ctx.cov["declaration_cells"] = n
+    ctx.log(f"{n} (format, declaration, value kind) cells: an accepted write must keep the dataset readable")
+
+
+def np_kind(decl):
+    import numpy as np
+    if decl in ("bytes", "str"):
+        return "S"
+    return np.dtype(decl).kind
+
+
+_orig_run = run
+
+
+def run(ctx):  # noqa: F811
+    _orig_run(ctx)
+    declarations(ctx)
